@@ -54,24 +54,31 @@ fn observe(g: &GraphModel, strat: &str, cfg: &Cfg) -> String {
             .visitor(move |p: stateright::Path<u16, u16>| { v2.lock().unwrap().push(p.into_states()); });
         if let Some(d) = cfg.max_depth { b = b.target_max_depth(d); }
         if let Some(t) = cfg.target { b = b.target_state_count(t); }
-        let (uniq, count, depth, disc): (usize, usize, usize, BTreeMap<usize, Vec<u16>>) = match strat.as_str() {
-            "bfs" => { let c = b.spawn_bfs().join(); summarize(&c) }
-            "dfs" => { let c = b.spawn_dfs().join(); summarize(&c) }
-            _ => { let c = b.spawn_on_demand(); c.run_to_completion(); let c = c.join(); summarize(&c) }
-        };
-        (uniq, count, depth, disc)
+        match strat.as_str() {
+            "bfs" => { let c = b.spawn_bfs().join(); (summarize(&c), verdict(&c)) }
+            "dfs" => { let c = b.spawn_dfs().join(); (summarize(&c), verdict(&c)) }
+            _ => { let c = b.spawn_on_demand(); c.run_to_completion(); let c = c.join(); (summarize(&c), verdict(&c)) }
+        }
     }));
     match r {
         Err(_) => "panic".into(),
-        Ok((uniq, count, depth, disc)) => {
+        Ok(((uniq, count, depth, disc), (done, assert_ok))) => {
             let vs = visits.lock().unwrap();
-            format!("(visits {}) (uniq {}) (count {}) (depth {}) (disc {})",
+            format!("(visits {}) (uniq {}) (count {}) (depth {}) (disc {}) (done {}) (assert {})",
                 format!("({})", vs.iter().map(|p| path_sx(p)).collect::<Vec<_>>().join(" ")),
                 uniq, count, depth,
-                format!("({})", disc.iter().map(|(i, p)| format!("({} {})", i, path_sx(p))).collect::<Vec<_>>().join(" ")))
+                format!("({})", disc.iter().map(|(i, p)| format!("({} {})", i, path_sx(p))).collect::<Vec<_>>().join(" ")),
+                if done { "t" } else { "f" }, if assert_ok { "ok" } else { "panic" })
         }
     }
 }
+/// `is_done()` and whether `assert_properties()` returns (true) or panics (false)
+fn verdict<C: Checker<GraphModel>>(c: &C) -> (bool, bool) {
+    let done = c.is_done();
+    let ok = catch_unwind(AssertUnwindSafe(|| c.assert_properties())).is_ok();
+    (done, ok)
+}
+
 /// A scripted chooser: the k-th question (over all traces of the run) is answered with `script[k] % options`
 /// (0 once the script is exhausted). The Lean model consumes the same answer list.
 #[derive(Clone)]
